@@ -130,6 +130,11 @@ func (E *Engine) atLoopHead(m *Machine, f *Frame, l *Loop, from, head *ssa.Basic
 		return false
 	}
 	lname := fmt.Sprintf("%s#%d", FuncName(f.Fn), l.Ordinal)
+	for _, inv := range spec.Invariants {
+		if len(inv.Props) == 0 {
+			inv.Props = allProps(m.Top.C)
+		}
+	}
 	m.enterBlock(f, from, head)
 	if back {
 		// preservation
